@@ -32,7 +32,8 @@ THEOREMS = ["ESV.Beh.check_sound", "ESV.Beh.validate_sound", "ESV.C01.routine_va
             "ESV.C01Frontend.codegen_correct_F1", "ESV.C01Frontend.compile_correct_F1", "ESV.Beh.E_sound",
             "ESV.C01Frontend.codegen_correct_F2", "ESV.C01Frontend.compile_correct_F2",
             "ESV.C01Frontend.codegen_correct_F3", "ESV.C01Frontend.compile_correct_F3",
-            "ESV.C01Frontend.codegen_correct_F4", "ESV.C01Frontend.compile_correct_F4"]
+            "ESV.C01Frontend.codegen_correct_F4", "ESV.C01Frontend.compile_correct_F4",
+            "ESV.C01Frontend.undefined_label_counterexample"]
 
 
 def table_mismatch(ast: dict, res: dict) -> str | None:
@@ -112,6 +113,8 @@ def wfl_tie(run: core.Run, drv: Any, ok_cases: list, jobs: int) -> Counter:
                 st["in_F3"] += 1
             if rep.get("f4"):
                 st["in_F4"] += 1
+            elif rep.get("f4why"):
+                st["not_F4:" + rep["f4why"][:70]] += 1
         else:
             st["tosrc_differs"] += 1
             tshown += 1
